@@ -209,7 +209,7 @@ def explore_env(st: Stats, cfg: EnvCfg, mode: str = "reference", max_depth: int 
     start = (gi0, frozenset())
     seen = {(start, env_digest(env0))}
     model_states = {start}
-    frontier = [(env0, start, [])]
+    frontier = [(env0, start, [], None)]
     cap = state_cap_factor * ng * (1 << len(cfg.ex))
     depth = 0
 
@@ -240,7 +240,7 @@ def explore_env(st: Stats, cfg: EnvCfg, mode: str = "reference", max_depth: int 
     st.states += 1
     while frontier and (max_depth is None or depth < max_depth):
         nxt = []
-        for env, (gi, R), hist in frontier:
+        for env, (gi, R), hist, kept in frontier:
             ops = [("step", a) for a in range(len(cfg.ex)) if a not in R] + [("unstep", a) for a in sorted(R)]
             if with_reset:
                 ops.append(("reset",))
@@ -261,6 +261,13 @@ def explore_env(st: Stats, cfg: EnvCfg, mode: str = "reference", max_depth: int 
                         return
                     continue
                 st.transitions += 1
+                # what an EARLIER call returned belongs to the caller: a later call (on any environment) must not rewrite it
+                if kept is not None and kept[0] != kept[1]:
+                    st.violation(f"[env {cfg.tag} n={cfg.n} {cfg.comp} {cfg.gap_name}] the info dict returned by {hist[-1] if hist else 'reset'} read "
+                                 f"{kept[1]} when it was returned and reads {kept[0]} after a later {op}", **cfg.doc(h2, mode=mode, snap=snap, kept_info=True))
+                    if st.nviol >= 3:
+                        return
+                    kept = None
                 if not judge(e2, ms, h2, ret, op):
                     if st.nviol >= 3:
                         return
@@ -275,7 +282,8 @@ def explore_env(st: Stats, cfg: EnvCfg, mode: str = "reference", max_depth: int 
                 if ms not in model_states:
                     model_states.add(ms)
                 st.states += 1
-                nxt.append((e2, ms, h2))
+                info = ret[-1] if isinstance(ret, tuple) and ret and isinstance(ret[-1], dict) else None
+                nxt.append((e2, ms, h2, (info, copy.deepcopy(info)) if info is not None else None))
         frontier = nxt
         depth += 1
     st.nontrivial += len(model_states)
@@ -294,7 +302,10 @@ def replay_env(doc: dict) -> tuple[bool, str]:
         ng = len(cfg.games)
         gi, R = (script.calls - 1) % ng, frozenset()
         ret = op = None
+        kept = []
         for op in hist:
+            if isinstance(ret, tuple) and ret and isinstance(ret[-1], dict):
+                kept.append((ret[-1], copy.deepcopy(ret[-1])))
             if doc.get("snap") == "pickle":
                 env = pickle_snapshot(env)
                 script = env.generator
@@ -304,7 +315,10 @@ def replay_env(doc: dict) -> tuple[bool, str]:
             else:
                 ret = getattr(env, op[0])(op[1])
                 R = R | {op[1]} if op[0] == "step" else R - {op[1]}
-        if mode == "reference":
+        stale = [f"{b} -> {a}" for a, b in kept if a != b]
+        if stale:
+            msg = f"info dicts returned by earlier calls were rewritten by later ones: {stale[:3]}"
+        elif mode == "reference":
             msg = compare_reference(cfg, Reference(cfg), env, gi, R, len(R), ret, op)
         else:
             c = canonical_obs(cfg, gi, R)
